@@ -33,6 +33,7 @@ func init() {
 	registerExec("tr.get", execTrGet)
 	registerExec("tr.set", execTrSet)
 	registerExec("tr.sum", execTrSum)
+	registerExec("tr.set2", execTrSet2)
 	registerExec("tr.fillc", execTrFillC)
 	registerExec("tr.filll", execTrFillL)
 	registerExec("tr.filld", execTrFillD)
@@ -720,6 +721,10 @@ func genC11(g *Gen, tier string, out *bufio.Writer) {
 		if line == "" {
 			continue
 		}
+		if strings.HasPrefix(line, "tr.set ") && g2.Intn(4) == 0 {
+			// the same link applied twice (second value: a fresh data leaf)
+			fmt.Fprintf(out, "tr.set2 %s D x%064x\n", strings.TrimPrefix(line, "tr.set "), g2.U64())
+		}
 		if strings.Contains(line, " Z ") && !strings.Contains(line, "Z 65") && g2.Intn(3) == 0 {
 			toks := strings.Fields(line)
 			for i := range toks {
@@ -757,4 +762,33 @@ func genC11Inner(g *Gen, tier string, w *bufio.Writer) {
 		genC11Random(g, w, 400)
 		genC11Fill(g, w, 150)
 	}
+}
+
+// tr.set2 <hash> <g> <expand> <tree> <v1> <v2>: the SAME link applied twice; the first result is
+// hashed in between and re-dumped afterwards (it must not have been touched by the second call).
+func execTrSet2(st *State, args []string) string {
+	h := useHash(args[0])
+	defer useHash("sha")
+	p := &parser{toks: args[1:]}
+	g := p.num()
+	expand := p.num() == 1
+	n := trParse(p)
+	v1 := trParse(p)
+	v2 := trParse(p)
+	link, err := n.Setter(tree.Gindex64(g), expand)
+	if err != nil {
+		return trErr(err)
+	}
+	res1, err := link(v1)
+	if err != nil {
+		return "err link"
+	}
+	root1 := res1.MerkleRoot(h)
+	res2, err := link(v2)
+	if err != nil {
+		return "err link"
+	}
+	root2 := res2.MerkleRoot(h)
+	again := res1.MerkleRoot(h)
+	return fmt.Sprintf("ok %s %s %s %s again=%s", trDump(res1), rootHex(root1), trDump(res2), rootHex(root2), rootHex(again))
 }
